@@ -1,5 +1,6 @@
 """helpers shared by the per-property plugins"""
 import itertools
+import os
 from verif import Corr, run_cases, rle_compare, parse_rle_text, log, sh, HARNESS, DRIVER
 
 
@@ -120,3 +121,30 @@ BIDI = {'L': 0x61, 'R': 0x5D0, 'AL': 0x627, 'AN': 0x661, 'EN': 0x31, 'ES': 0x2D,
         'ON': 0x21, 'BN': 0xAD, 'NSM': 0x5B0, 'B': 0x2029, 'S': 0x9, 'WS': 0x20}
 CTX = [0x200C, 0x200D, 0xB7, 0x375, 0x5F3, 0x5F4, 0x30FB, 0x660, 0x6F0, 0x94D, 0x6C, 0x3B1, 0x5D0, 0x3042,
        0x30A2, 0x4E00, 0x628, 0x627, 0xA872, 0x64B]
+
+
+def boundary_cps(ctx, stride=None):
+    """code points at which ANY table-driven behaviour can change: first/last of every run (and their neighbours) of the
+    classification, bidi class, width mapping, Zs, case mapping, plus every key and image of the normalization tables.
+    thorough tier: additionally every `stride`-th scalar value."""
+    import verif
+    runs = parse_rle_text(sh([HARNESS, 'rle', 'cls_id', 'cls_ff', 'bidi', 'widthmap', 'zs']).stdout)
+    std = parse_rle_text(open(os.path.join(verif.DUMP, 'std.txt')).read())
+    cps = set()
+    for d in (runs, std):
+        for fn, rr in d.items():
+            for s_, e, v in rr:
+                for c in (s_ - 1, s_, e, e + 1):
+                    cps.add(c)
+    for l in open(os.path.join(verif.DUMP, 'norm.txt')):
+        f = l.rstrip('\n').split('\t')
+        if f[0] in ('canon', 'compat'):
+            cps.add(int(f[1], 16))
+            cps.update(int(x, 16) for x in f[2].split())
+        elif f[0] == 'comp':
+            cps.update(int(x, 16) for x in f[1:4])
+        elif f[0] == 'ccc':
+            cps.add(int(f[1], 16))
+    if stride:
+        cps.update(range(0, 0x110000, stride))
+    return sorted(c for c in cps if 0 <= c < 0x110000 and not (0xD800 <= c <= 0xDFFF))
